@@ -56,6 +56,12 @@ pub broadcast proof fn lemma_trunc_div_i64_range(a: i64, b: i64)
     }
 }
 
+pub broadcast proof fn lemma_int_pow_zero_base(e: nat)
+    requires e >= 1
+    ensures #[trigger] int_pow(0, e) == 0
+{
+    assert(int_pow(0, e) == 0 * int_pow(0, (e - 1) as nat));
+}
 // a power of a non-zero integer is non-zero (so the reciprocal taken by `0 ^ negative` is the only failing case)
 pub broadcast proof fn lemma_int_pow_nonzero(a: int, e: nat)
     requires a != 0
